@@ -107,14 +107,22 @@ structure Piece where
   aligns : List (Nat × Nat)      -- (offset inside the piece, alignment)
   deriving Repr, Inhabited
 
+/-- the first aligned item of a piece: the lowest offset that carries a request, with the
+strictest of the requests made there (the block's own `.align` and a patch's at offset 0 must
+both hold; alignments are powers of two, so the larger one implies the other) -/
+def firstAlign (as : List (Nat × Nat)) : Option (Nat × Nat) :=
+  match sortOn (fun a => (a.1, 0)) as with
+  | (o, a) :: rest => some (o, ((rest.filter (fun x => x.1 == o)).map (·.2)).foldl max a)
+  | [] => none
+
 /-- expected section contents: the pieces in order; before a piece whose first
 aligned item demands it, whole nops (after code) or zeros (after data) -/
 def layoutPieces (nop : List Nat) (base : Nat) : List Piece → Bool → Nat → List Nat
   | [], _, _ => []
   | p :: ps, prevCode, addr =>
-    let pad : Nat := match sortOn (fun a => (a.1, 0)) p.aligns with
-      | (o, a) :: _ => alignUpN (base + addr + o) a - (base + addr + o)
-      | [] => 0
+    let pad : Nat := match firstAlign p.aligns with
+      | some (o, a) => alignUpN (base + addr + o) a - (base + addr + o)
+      | none => 0
     let padBytes := if pad == 0 then [] else if prevCode then repeatTo nop pad else List.replicate pad 0
     padBytes ++ p.bytes ++ layoutPieces nop base ps (if p.bytes.isEmpty then prevCode else p.isCode)
       (addr + padBytes.length + p.bytes.length)
@@ -151,9 +159,9 @@ def pieceOf (before : IR) (keptAlign : Nat → Bool) (edits : List LEdit) (b : B
 def pieceStarts (nop : List Nat) (base : Nat) : List Piece → Bool → Nat → List Nat
   | [], _, _ => []
   | p :: ps, prevCode, addr =>
-    let pad : Nat := match sortOn (fun a => (a.1, 0)) p.aligns with
-      | (o, a) :: _ => alignUpN (base + addr + o) a - (base + addr + o)
-      | [] => 0
+    let pad : Nat := match firstAlign p.aligns with
+      | some (o, a) => alignUpN (base + addr + o) a - (base + addr + o)
+      | none => 0
     (addr + pad) :: pieceStarts nop base ps (if p.bytes.isEmpty then prevCode else p.isCode)
       (addr + pad + p.bytes.length)
 
